@@ -411,7 +411,7 @@ class Engine(object):
         return [Out(NEXT, st)]
 
     def st_FunctionDef(self, s, st):
-        self._closures[id(s)] = (s, None)
+        self._closures[id(s)] = (s, st.env)       # the defining environment (of the path that reached the definition last)
         val = ('closure', s.name, id(s))
         if not s.decorator_list:
             st.env[s.name] = val
@@ -631,6 +631,16 @@ class Engine(object):
         known_empty = False
         if itval[0] in ('tuple', 'list') and not any(x[0] == 'star' for x in itval[1]) and hook is None:
             return self._loop_exact(itval[1], st, target, body, orelse, node, body_fn)
+        if hook is None and itval[0] == 'call' and itval[1] == ('lib', 'zip') and not itval[3] and itval[2] \
+                and all(a[0] in ('tuple', 'list') and not any(x[0] == 'star' for x in a[1]) for a in itval[2]):
+            # zip of literal sequences (a table of names driving a loop): exactly the pairs
+            n = min(len(a[1]) for a in itval[2])
+            elems = tuple(('tuple', tuple(a[1][i] for a in itval[2])) for i in range(n))
+            return self._loop_exact(elems, st, target, body, orelse, node, body_fn)
+        if hook is None and itval[0] == 'call' and itval[1] == ('lib', 'enumerate') and len(itval[2]) == 1 and not itval[3] \
+                and itval[2][0][0] in ('tuple', 'list') and not any(x[0] == 'star' for x in itval[2][0][1]):
+            elems = tuple(('tuple', (C(i), x)) for i, x in enumerate(itval[2][0][1]))
+            return self._loop_exact(elems, st, target, body, orelse, node, body_fn)
         tr = st.facts.get('truth', {}).get(itval)
         if empty_literal(itval):
             known_empty = True
@@ -866,6 +876,11 @@ class Engine(object):
         if obj[0] == 'tuple' and is_const(idx) and isinstance(idx[1], int) \
                 and -len(obj[1]) <= idx[1] < len(obj[1]) and not any(x[0] == 'star' for x in obj[1]):
             return [R(st, obj[1][idx[1]])]
+        if obj[0] == 'dict' and is_const(idx) and obj[1] and all(k is not None and is_const(k) for k, _ in obj[1]):
+            # a literal table indexed by a constant key
+            hit = [v for k, v in obj[1] if k == idx]
+            if hit:
+                return [R(st, hit[-1])]
         return [R(st, ('sub', obj, idx))]
 
     def attr_store(self, obj, attr, v, st, node):
@@ -1032,7 +1047,7 @@ class Engine(object):
         return self.ev(n.value, st)
 
     def ex_Lambda(self, n, st):
-        self._closures[id(n)] = (n, None)
+        self._closures[id(n)] = (n, st.env)
         return [R(st, ('lambda', id(n), unparse(n)))]
 
     def ex_Yield(self, n, st):
@@ -1243,6 +1258,10 @@ class Engine(object):
                             cur = r.st.env.get(nm)
                             if cur is not None and cur[0] in ('dict', 'list', 'set'):
                                 r.st.env[nm] = ('mut', cur, next(self.uid))
+                            elif cur is not None and n.func.attr in ('extend', 'update') and cur[0] in ('call', 'ext') and ra.val \
+                                    and getattr(self.model, 'track_extend', False):
+                                # values = list(args); values.extend(kwds.values()): the container now also holds the extension
+                                r.st.env[nm] = ('ext', cur, tuple(ra.val))
                     out.extend(res)
         return out
 
@@ -1251,9 +1270,14 @@ class Engine(object):
         if h is not None:
             return h
         if f[0] == 'closure':
-            fnode, _ = self._closures.get(f[2], (None, None))
+            fnode, denv = self._closures.get(f[2], (None, None))
             if fnode is not None:
-                return self.inline(fnode, f[1], None, args, kws, st, node)
+                return self.inline(fnode, f[1], None, args, kws, st, node, defenv=denv)
+        if f[0] == 'lambda' and getattr(self.model, 'inline_lambdas', False):
+            # a function value handed to a helper and called there (self._transact(lambda memo: ...))
+            fnode, denv = self._closures.get(f[1], (None, None))
+            if fnode is not None:
+                return self.inline(fnode, 'lambda@%d' % getattr(fnode, 'lineno', 0), None, args, kws, st, node, defenv=denv)
         if f[0] == 'lib' and len(args) == 1 and not kws:
             a = args[0]
             if f[1] == 'len' and a[0] in ('tuple', 'list') and not any(x[0] == 'star' for x in a[1]):
@@ -1352,7 +1376,7 @@ class Engine(object):
                     env[x.arg] = ('param', x.arg)
         return env
 
-    def inline(self, fnode, label, base_env, args, kws, st, node, self_val=None):
+    def inline(self, fnode, label, base_env, args, kws, st, node, self_val=None, defenv=None):
         """expand a call to a function whose body is available"""
         if st.depth >= self.max_depth or label in st.frames:
             st.emit('OPAQUECALL', (C(label),) + tuple(args), getattr(node, 'lineno', 0))
@@ -1363,6 +1387,10 @@ class Engine(object):
         pend = self._pending_defaults
         saved_env = st.env
         callee_env = dict(base_env if base_env is not None else saved_env)
+        if defenv:
+            # free variables of a closure called from another function (a callback) live in the environment that defined it
+            for k_, v_ in defenv.items():
+                callee_env.setdefault(k_, v_)
         callee_env.update(env)
         for nm, d in pend:
             # defaults are constants in this code base; evaluate in callee env without effects
